@@ -387,7 +387,9 @@ func (g *Gen) stmt(top, decl bool) ast.Vertex {
 			n.AmpersandTkn, n.Var = g.ch('&'), g.Variable(1, true)
 			g.feat("foreach-ref")
 		case 1:
+			g.listInForeach = true
 			n.Var = g.listTarget(0)
+			g.listInForeach = false
 			g.feat("foreach-list")
 		default:
 			n.Var = g.Variable(1, true)
